@@ -202,6 +202,17 @@ type feRun struct {
 }
 
 func runFrontend(bi *buildInfo, c *feCase, ws string) feRun {
+	for try := 0; ; try++ {
+		r, again := runFrontendOnce(bi, c, ws)
+		if !again || try >= 2 {
+			return r
+		}
+		time.Sleep(3 * time.Second)
+	}
+}
+
+// runFrontendOnce; again = the process was killed from outside without a word (run it again).
+func runFrontendOnce(bi *buildInfo, c *feCase, ws string) (feRun, bool) {
 	bin := filepath.Join(bi.Dir, "frontends", c.Binary)
 	var args []string
 	if !strings.HasSuffix(c.Binary, "-analysis") {
@@ -218,7 +229,7 @@ func runFrontend(bi *buildInfo, c *feCase, ws string) feRun {
 	cmd.Stdout, cmd.Stderr = &buf, &buf
 	done := make(chan error, 1)
 	if err := cmd.Start(); err != nil {
-		return feRun{Exit: -1, Output: err.Error()}
+		return feRun{Exit: -1, Output: err.Error()}, false
 	}
 	go func() { done <- cmd.Wait() }()
 	var err error
@@ -237,7 +248,7 @@ func runFrontend(bi *buildInfo, c *feCase, ws string) feRun {
 			r.Exit = ee.ExitCode()
 		}
 	}
-	return r
+	return r, !to && killedSilently(err, r.Output)
 }
 
 func containsAnyStr(s string, subs []string) bool {
